@@ -19,7 +19,7 @@ with open(os.path.join(here, "seeded", "SUMMARY.md"), "w") as f:
             "| name | property | what it needs to manifest (author's notes, truncated) | demonstration | repository tests with the patch | our check |\n|---|---|---|---|---|---|\n")
     f.write("\n".join(rows) + "\n")
 
-def rnd(n): return 8 if "-r8" in n else 7 if "-r7" in n else 6 if "-r6" in n else 5 if "-r5" in n else 4 if "-r4" in n else 3 if "-r3" in n else (2 if "-r2" in n else 1)
+def rnd(n): return 9 if "-r9" in n else 8 if "-r8" in n else 7 if "-r7" in n else 6 if "-r6" in n else 5 if "-r5" in n else 4 if "-r4" in n else 3 if "-r3" in n else (2 if "-r2" in n else 1)
 stats = {}
 for f in sorted(glob.glob(os.path.join(here, "seeded", "*", "meta.json"))):
     m = json.load(open(f)); n = m["name"]
